@@ -12,6 +12,7 @@ def main():
     ap.add_argument("--replay")
     ap.add_argument("--selftest", action="store_true")
     a = ap.parse_args()
+    os.environ["VERIF_TIER_EFFECTIVE"] = a.tier
     mod = importlib.import_module(f"harness.checks.{a.pid.lower()}")
     if a.replay:
         if hasattr(mod, "replay"):
